@@ -7,6 +7,7 @@ import BV.C05.Lemmas2
 import BV.C05.Lemmas3
 import BV.C05.Lemmas4
 import BV.C05.Lemmas5
+import BV.C05.Lemmas6
 import BV.Generated.C05
 namespace BV.C05
 open Treap
@@ -183,6 +184,27 @@ the committed entries that are not shadowed (pending for removal or update). -/
 theorem cursor_forward {K V : Type} (cmp : K → K → Ordering) (sh : K → Bool) (A B : List (K × V)) :
     fwdRun cmp sh A B = mergeSorted cmp (A.filter (fun x => !sh x.1)) B :=
   Lemmas.fwdRun_eq_merge cmp sh A B
+
+/-- … and that merge is THE view of the transaction: strictly ascending in key order, containing
+exactly the pending entries and the committed entries that are not shadowed — for sorted layers in
+which every pending key is shadowed (as `skipPendingUpdates` treats them). -/
+theorem cursor_forward_view {K V : Type} (cmp : K → K → Ordering) (h : OrdLaws cmp) (sh : K → Bool)
+    (A B : List (K × V)) (hA : SortedKeys cmp A) (hB : SortedKeys cmp B)
+    (hsh : ∀ y ∈ B, sh y.1 = true) :
+    SortedKeys cmp (fwdRun cmp sh A B) ∧
+      ∀ z, z ∈ fwdRun cmp sh A B ↔ (z ∈ A ∧ sh z.1 = false) ∨ z ∈ B := by
+  rw [Lemmas.fwdRun_eq_merge]
+  constructor
+  · apply Lemmas.mergeSorted_sorted h _ _ (List.Pairwise.sublist List.filter_sublist hA) hB
+    intro x hx y hy hc
+    have hxy : x.1 = y.1 := (h.eq_iff _ _).mp hc
+    have h1 : sh x.1 = false := by simpa using (List.mem_filter.mp hx).2
+    have h2 := hsh y hy
+    rw [← hxy, h1] at h2
+    cases h2
+  · intro z
+    rw [Lemmas.mem_mergeSorted, List.mem_filter]
+    simp
 
 /-- `cursor_backward`: `Last` followed by `Prev`s emits the same merge of the reversed lists under
 the reversed order. -/
